@@ -273,9 +273,12 @@ def tagged_to_file(path, tag, dst, limit=None, every=1, offset=0):
 
 def load_known():
     p = os.path.join(VERIF, "known_findings.json")
-    if not os.path.exists(p):
-        return []
-    return json.load(open(p))["findings"]
+    found = json.load(open(p))["findings"] if os.path.exists(p) else []
+    # proposals not yet merged into known_findings.json (a check's NOTES file points at them); never written at run time
+    extra = os.environ.get("VERIF_KNOWN_EXTRA")
+    if extra and os.path.exists(extra):
+        found = found + json.load(open(extra))["findings"]
+    return found
 
 
 def finish(ctx, level, coverage, assumptions):
